@@ -274,7 +274,7 @@ class WKCResource(Resource):
                 filters.append(
                     lambda link: any(
                         matchexp(part)
-                        for part in (" ".join(getattr(link, k, ()))).split(" ")
+                        for part in (" ".join(getattr(link, k, ()))).split()
                     )
                 )
             elif k in ("href",):  # x.href is single valued
